@@ -1104,10 +1104,12 @@ type subsCfg struct {
 	Region int   // -1 = default
 	Stpp   []string
 	Wvtt   []string
+	Other  string // further URL options that must not influence the subtitles (timeoffset_, ato_, periods_, utc_, ...)
 }
 
 func (sc subsCfg) tl() lib.TLCfg {
 	var sb strings.Builder
+	sb.WriteString(sc.Other)
 	if len(sc.Stpp) > 0 {
 		fmt.Fprintf(&sb, "timesubsstpp_%s/", strings.Join(sc.Stpp, ","))
 	}
@@ -1170,6 +1172,15 @@ func (r *runner) serverCases(ls *lib.Livesim, assets []*lib.TLAsset, generated b
 			if rng.Intn(4) == 0 {
 				sc.Tsbd = []int64{20, 120}[rng.Intn(2)]
 			}
+			// options that only move the server's clock or change the MPD around the segments: the cue at
+			// media time T must still show the UTC second T + start
+			if rng.Intn(3) == 0 {
+				sc.Other = []string{"timeoffset_10/", "timeoffset_-10/", "timeoffset_0.5/", "timeoffset_7.25/", "timeoffset_-3.75/", "ato_1/", "periods_60/",
+					"utc_direct-head/", "ltgt_2500/", "spd_6/", "mup_4/", "sidx_1/", "patch_60/"}[rng.Intn(13)]
+				if sc.Other == "periods_60/" && a.Path != "testpic_2s" {
+					sc.Other = "" // a period must be a whole number of segments
+				}
+			}
 			if rng.Intn(2) == 0 {
 				sc.Region = rng.Intn(2)
 			}
@@ -1221,6 +1232,12 @@ func (r *runner) serverCases(ls *lib.Livesim, assets []*lib.TLAsset, generated b
 			cfg := sc.tl()
 			endMS := ref.LoopE(n)*1000/ts + sc.StartS*1000
 			now := endMS + 1500
+			if strings.HasPrefix(sc.Other, "timeoffset_") {
+				now = endMS + 15000 // the server's clock is nowMS shifted by up to 10 s either way: inside the window for both signs
+			}
+			if sc.Other != "" {
+				c.Count("segment-with-other-option:" + strings.SplitN(sc.Other, "_", 2)[0])
+			}
 			// reference video segment as served
 			vid := n + cfg.EffSnr()
 			if sc.Mode == "tlt" {
